@@ -81,7 +81,8 @@ def _poly3(case, rec):
     # sqrt(eps) ~ 1.5e-8 of absolute error when two faces are (nearly) coplanar, on every edge
     tM = K * EPS * ntri * L + 3e-8 * total_edge_length(V, facets) / (8 * math.pi)
     rec.close("mean_curvature", get(P, "mean_curvature"), M, tM, sig)
-    rec.close("tau", get(P, "tau"), 4 * math.pi * M * M / area, 1e-9 * (4 * math.pi * M * M / area) * (1 + L / size), sig)
+    tau = 4 * math.pi * M * M / area
+    rec.close("tau", get(P, "tau"), tau, tau * (2 * tM / M + T["area"] / area + 1e-10), sig)
     asph = M * area / (3 * vol)
     rel3 = T["vol"] / vol + T["area"] / area + tM / M
     rec.close("asphericity", get(P, "asphericity"), asph, asph * (rel3 + 1e-10), sig)
